@@ -108,6 +108,7 @@ type genTree struct {
 	collPfx  [][]byte
 	lim      int
 	strNUL   bool
+	hanFan   bool
 }
 
 var smallAlphabet = []byte{0x00, 0x01, 'a', 'b', 0x7F, 0x80, 0xFF}
@@ -321,10 +322,17 @@ func (g *genTree) newCollKey(r *RNG) []byte {
 		// fan: one shared prefix, one letter out of many, optional short tail
 		s := clone(g.collPfx[0])
 		var l string
-		if r.Chance(2, 3) {
+		switch {
+		case g.hanFan:
+			// Han ideographs get implicit weights computed from the code point: 256
+			// consecutive ones differ in one byte of the sort key — the only way a
+			// collation tree reaches the 256-slot class
+			l = string(rune(0x4E00 + g.fanNext%300))
+			g.fanNext++
+		case r.Chance(2, 3):
 			l = fanLetters[g.fanNext%len(fanLetters)]
 			g.fanNext++
-		} else {
+		default:
 			l = pick(r, fanLetters)
 		}
 		s = append(s, l...)
@@ -648,6 +656,7 @@ func newGenTree(r *RNG, kt KeyType, val string, lim int) *genTree {
 		g.fanPfx = clone(g.runs[0])
 	}
 	g.fanNext = r.Intn(256)
+	g.hanFan = r.Chance(1, 4)
 	g.phaseLen = r.Range(20, 120)
 	nb := 1
 	if kt.Kind == "compound" {
